@@ -176,4 +176,18 @@ func init() {
 			{Pkg: "rtmp", Func: "HarnessC03_Expect", Labels: []string{"expect", "expect-message", "expect-packet"}, Bound: "2-3 messages of forked kinds {window ack, ping, closeStream, connect}; ExpectMessage(type) for 3 types; ExpectPacket(&*ConnectAppPacket)"},
 		},
 	})
+	reg(&propSpec{
+		ID:   "C04",
+		Rule: "Harness in harness/rtmp/c04.go: two engine threads (writer, reader) on one Protocol over a transport that makes the peer's response readable as soon as the request's last byte was handed to Write; every order of their visible operations (channel operations of the transport, ltransactions Lock/Unlock, thread start/exit) is a forked schedule decision; vector-clock happens-before race detection on every memory slot.",
+		Assumptions: append([]string{
+			"context switches only at visible operations (mutex, channel, go, thread exit); finer interleavings are covered by reporting data races (DRF argument); sequentially consistent memory",
+			"channel operations are treated as acquire+release on the channel (over-approximates happens-before: can hide a race, never invent one)",
+			"native replay pins the adversarial order with the 'slow write' transport mode (Write does not return before the reader handled the response) and runs under -race",
+		}, rtmpAssume...),
+		Harnesses: []harnessSpec{
+			{Pkg: "rtmp", Func: "HarnessC04_Concurrent", Race: true, Labels: []string{"concurrent"},
+				Bound:  "1 request (connect, or createStream with symbolic id > 1.5), 2 threads, all schedules; free and slow-write transport",
+				BoundT: "1-2 requests (connect and/or createStream with symbolic distinct ids), 2 threads, all schedules"},
+		},
+	})
 }
